@@ -47,4 +47,43 @@ func cmdReplay(args []string) int {
 	return 0
 }
 
-func cmdSelftest(args []string) int { return 0 }
+// cmdSelftest: the must-fail corpus.  For every claimed property (or the ones given) every stored seeded change that the
+// quick check is known to report is applied to a scratch copy of /repo's working tree; the check must fail there.
+// Exit 1 when a canary is no longer reported (the machinery lost strength).  Run after every engine change.
+func cmdSelftest(args []string) int {
+	props := args
+	if len(props) == 0 {
+		b, err := os.ReadFile(filepath.Join(verifRoot(), "MANIFEST.json"))
+		if err != nil {
+			fmt.Println(err)
+			return 2
+		}
+		var m struct {
+			Checks []struct {
+				PropertyID string `json:"property_id"`
+			} `json:"checks"`
+		}
+		if json.Unmarshal(b, &m) != nil {
+			return 2
+		}
+		for _, c := range m.Checks {
+			props = append(props, c.PropertyID)
+		}
+	}
+	missed := 0
+	for _, p := range props {
+		res := runCanaries(checkOpts{property: p, repo: "/repo"})
+		for _, c := range res {
+			fmt.Printf("%-7s %s\n", c.Seed, c.Status)
+			if c.Status != "detected" {
+				missed++
+			}
+		}
+	}
+	if missed > 0 {
+		fmt.Printf("selftest: %d canaries no longer reported\n", missed)
+		return 1
+	}
+	fmt.Println("selftest: every canary is reported")
+	return 0
+}
